@@ -78,47 +78,38 @@ Notation init := (init V vzero vdef Q).
 (* the reference impedances vnadata_convert passes for frequency f: get_fz0_vector *)
 Definition z0_row (d : vd) (f : nat) : nat -> V := if per_f V d then z0vv V d f else z0v V d.
 
-(* set-up of a destination distinct from the source *)
-Definition setup_out (din dout : vd) (k : ckind) : vd * outcome V :=
-  let nr := match k with KXtoI => 1 | _ => rows V din end in
-  let nc := match k with
-            | KXtoI => if Nat.ltb (rows V din) (cols V din) then rows V din else cols V din
-            | _ => cols V din end in
-  let '(e0, o0) := init dout 0 (Z.of_nat nr) (Z.of_nat nc) (Z.of_nat (freqs V din)) in
-  match o_ret V o0 with
-  | ROk =>
-    (* the z0 vectors of the source are read up to the number of ports of the *destination*;
-       for a 0 x 0 source converted to Zin the destination is 1 x 0 and has one port *)
-    let np := ports V e0 in
-    if negb (Nat.leb np (p_alloc V din) || (per_f V din && Nat.eqb (freqs V din) 0))
-    then (dout, fault V) else
-    let '(e1, o1) := set_frequency_vector V e0 (map (fv V din) (seq 0 (freqs V din))) in
-    let '(e2, o2) :=
-       if per_f V din
-       then fold_left (fun (acc : vd * outcome V) f =>
-                         match o_ret V (snd acc) with
-                         | ROk => set_fz0_vector V vzero vdef Q (fst acc) (Z.of_nat f)
-                                    (map (z0vv V din f) (seq 0 np))
-                         | _ => acc end)
-                      (seq 0 (freqs V din)) (e1, o1)
-       else set_z0_vector V vzero vdef e1 (map (z0v V din) (seq 0 np)) in
-    match o_ret V o1, o_ret V o2 with
-    | ROk, ROk =>
-      let '(e3, o3) := set_filetype V e2 (ftype V din) in
-      let '(e4, o4) := set_format V e3 (fmt V din) in
-      let '(e5, o5) := set_fprecision V e4 (fprec V din) in
-      let '(e6, o6) := set_dprecision V e5 (dprec V din) in
-      match o_ret V o3, o_ret V o5, o_ret V o6 with
-      | ROk, ROk, ROk => (e6, ok V)
-      | ROk, ROk, _ => (e6, o6)
-      | ROk, _, _ => (e5, o5)
-      | _, _, _ => (e3, o3)
-      end
-    | ROk, _ => (e2, o2)
-    | _, _ => (e1, o1)
-    end
-  | _ => (e0, o0)
+(* a sequence of calls that stops at the first failure (`if (f(...) == -1) return -1;`) *)
+Fixpoint run_ok (d : vd) (l : list (op V)) : vd * outcome V :=
+  match l with
+  | [] => (d, ok V)
+  | o :: r => let '(e, x) := step V vzero vdef Q d o in
+              match o_ret V x with ROk => run_ok e r | _ => (e, x) end
   end.
+
+(* set-up of a destination distinct from the source: vnadata_init, copy of the frequency
+   vector, of the reference impedances (ordinary vector, or row by row; nothing when the
+   destination nominally has more ports than the source - a 0 x 0 source converted to Zin gives
+   a 1 x 0 destination - repair DD1), of the file type, format and precisions.  The z0 setters
+   read as many entries of the source vectors as the destination has ports. *)
+Definition setup_ops (din : vd) (nr nc : nat) : list (op V) :=
+  let np := Nat.max nr nc in
+  OInit V 0 (Z.of_nat nr) (Z.of_nat nc) (Z.of_nat (freqs V din))
+  :: OSetFreqVec V (map (fv V din) (seq 0 (freqs V din)))
+  :: (if Nat.ltb (ports V din) np then []
+      else if per_f V din
+      then map (fun f => OSetFz0Vec V (Z.of_nat f) (map (z0vv V din f) (seq 0 np))) (seq 0 (freqs V din))
+      else [OSetZ0Vec V (map (z0v V din) (seq 0 np))])
+  ++ [OSetFiletype V (ftype V din); OSetFormat V (fmt V din); OSetFprec V (fprec V din);
+      OSetDprec V (dprec V din)].
+
+Definition out_rows (din : vd) (k : ckind) : nat := match k with KXtoI => 1 | _ => rows V din end.
+Definition out_cols (din : vd) (k : ckind) : nat :=
+  match k with
+  | KXtoI => if Nat.ltb (rows V din) (cols V din) then rows V din else cols V din
+  | _ => cols V din end.
+
+Definition setup_out (din dout : vd) (k : ckind) : vd * outcome V :=
+  run_ok dout (setup_ops din (out_rows din k) (out_cols din k)).
 
 (* per-frequency results of the selected function on the source *)
 Definition conv_results (din : vd) (cs : convsel) : list (list V) :=
